@@ -117,14 +117,14 @@ pub fn c07(r: &Report) {
                 // exact fit / one short
                 let mut buf = vec![0u8; len];
                 let fit = (e.encode_slice)(v, &mut buf);
-                if fit != Ok(len) || buf != bytes {
+                if fit != (Ok(()), len) || buf != bytes {
                     r.fail(sub, None, json!({"schema": describe(s, &c.all), "value": gv(v)}), format!("encoding into exactly len() = {} bytes gave {:?}", len, fit));
                     continue;
                 }
                 if len > 0 {
                     let mut short = vec![0u8; len - 1];
                     let res = (e.encode_slice)(v, &mut short);
-                    if res != Err(true) {
+                    if res.0 != Err(true) {
                         r.fail(sub, None, json!({"schema": describe(s, &c.all), "value": gv(v)}), format!("encoding into len()-1 bytes gave {:?} instead of a write error", res));
                         continue;
                     }
@@ -306,6 +306,14 @@ pub fn c09(r: &Report) {
                         continue;
                     }
                 };
+                // round trip proper: the subject's own output must denote the value under the documented rules
+                match schema_decode(s, &c.all, &item) {
+                    SVerdict::Ok(g) if g == want => {}
+                    other => {
+                        r.fail(sub, None, json!({"schema": describe(s, &c.all), "value": gv(v), "encoded_hex": hex(&bytes), "encoded": item.diag()}), format!("the derived encoder's output does not denote the value: reading it by the documented rules gives {:?}", other));
+                        continue;
+                    }
+                }
                 let k = if bytes.len() <= 12 { 2 } else { 1 };
                 for variant in deviations_up_to_ex(&item, k, true, true, false) {
                     let enc = variant.to_bytes();
@@ -397,10 +405,9 @@ pub fn c10(r: &Report) {
                     Ok(b) => b,
                     Err(_) => continue,
                 };
-                let item = match parse(&bytes) {
-                    Ok((it, u)) if u == bytes.len() => it,
-                    _ => continue, // C08 reports this
-                };
+                // the expectation is computed on the documented encoding of the writer's value, never on the
+                // bytes the subject produced: a writer that deviates from the format must not redefine the oracle
+                let item = schema_encode(ws, &c.all, v);
                 let expected = schema_decode(rs, &c.all, &item);
                 // documented-compatible pairs always decode; the incompatible direction (reader needs a
                 // mandatory field the writer lacks) must fail
@@ -503,4 +510,58 @@ pub fn c10(r: &Report) {
     }
 }
 
-pub fn c13(_r: &Report) {}
+pub fn c13(r: &Report) {
+    let c = ctx();
+    let sub = "derived-values-into-slices";
+    r.space(sub, true, "every value of every compiled schema with an encoding <= 40 bytes x every capacity 0..=len+1 of a `&mut [u8]` between guard regions: success iff it fits, otherwise a write error with a prefix of the encoding left behind and an untouched tail", 2);
+    let ss = checked_schemas(&c);
+    mcx::par::run_shards(
+        ss.len(),
+        |i| {
+            let s = ss[i];
+            let e = &c.entries[s.id];
+            let mut n = 0u64;
+            let mut fits = 0u64;
+            for v in values(s, &c.all) {
+                let bytes = match (e.to_vec)(&v) {
+                    Ok(b) if b.len() <= 40 => b,
+                    _ => continue,
+                };
+                for cap in 0..=bytes.len() + 1 {
+                    let mut mem = vec![0x5au8; cap + 32];
+                    mem[16..16 + cap].fill(0xa5);
+                    mcx::slot::case("derived-sink", &bytes);
+                    let res = mcx::par::guard(|| (e.encode_slice)(&v, &mut mem[16..16 + cap]));
+                    n += 1;
+                    let case = || json!({"schema": describe(s, &c.all), "value": gv(&v), "capacity": cap, "encoding_hex": hex(&bytes)});
+                    let (res, written) = match res {
+                        Ok(x) => x,
+                        Err(p) => {
+                            r.fail(sub, None, case(), format!("panicked: {}", p));
+                            continue;
+                        }
+                    };
+                    if mem[..16].iter().chain(&mem[16 + cap..]).any(|b| *b != 0x5a) {
+                        r.fail(sub, None, case(), "bytes outside the sink were modified");
+                        continue;
+                    }
+                    let body = &mem[16..16 + cap];
+                    let ok = if bytes.len() <= cap {
+                        fits += 1;
+                        res == Ok(()) && written == bytes.len() && body[..written] == bytes[..] && body[written..].iter().all(|b| *b == 0xa5)
+                    } else {
+                        res == Err(true) && written <= cap && body[..written] == bytes[..written] && body[written..].iter().all(|b| *b == 0xa5)
+                    };
+                    if !ok {
+                        r.fail(sub, None, case(), format!("returned {:?} with {} bytes accepted; sink holds {}", res, written, hex(body)));
+                    }
+                }
+            }
+            r.add(sub, n, fits);
+            r.outcome(sub, "fits", fits);
+            r.outcome(sub, "write error", n - fits);
+        },
+        crate::hang_handler(r.property.clone()),
+    );
+    r.sample(sub, json!({"schema": "struct { #[n(0)] u8, #[n(2)] Option<u8> }", "value": "(1, Some(24))", "encoding_hex": "8301f61818", "capacity": 3, "expected": "write error, 3 bytes accepted: 8301f6"}));
+}
